@@ -137,7 +137,7 @@ def check(ctx):
               "the count is the product of exactly the quantities stored in the shape", "the solution count is no longer the product of the stored shapes")
     cp = ctx.fn("random:UCSolutionEnumerator.__count_preamble_solutions")
     Fp = Facts(cp)
-    ctx.check(Fp.returns() == ["1", "pow(combos, self._preamble_size)"] and Fp.augs("combos") == ["*= len(list(filter(lambda l: not(self._block.is_excluded_combination({f: l})), f.levels)))"], R, cp, "preamble count",
+    ctx.check(Fp.returns() == ["1", "pow(combos, self._preamble_size)"] and Fp.augs("combos") == ["*= len([_b0 for _b0 in f.levels if not(self._block.is_excluded_combination({f: _b0}))])"], R, cp, "preamble count",
               "preamble count = (product of allowed level counts of the basic factors) ** preamble trials", "preamble count changed: %s %s" % (Fp.returns(), Fp.augs("combos")))
     gp = ctx.fn("random:UCSolutionEnumerator.generate_preamble_sample")
     Fg = Facts(gp)
